@@ -7,6 +7,7 @@
 #include <dispenso/spsc_ring_buffer.h>
 
 #include <algorithm>
+#include <atomic>
 #include <memory>
 #include <thread>
 #include <vector>
@@ -24,21 +25,40 @@ struct Elem {
   int canary = 0xE1E3;
   Elem() noexcept {
     g_live++;
+    raceW(this, "element");
   }
   explicit Elem(int t) noexcept : tag(t) {
     g_live++;
+    raceW(this, "element");
   }
   Elem(const Elem& o) noexcept : tag(o.tag), canary(o.canary) {
     g_live++;
+    raceR(&o, "element");
+    raceW(this, "element");
   }
   Elem(Elem&& o) noexcept : tag(o.tag), canary(o.canary) {
     g_live++;
+    raceR(&o, "element");
+    raceW(this, "element");
   }
-  Elem& operator=(const Elem& o) = default;
-  Elem& operator=(Elem&& o) = default;
+  Elem& operator=(const Elem& o) noexcept {
+    raceR(&o, "element");
+    raceW(this, "element");
+    tag = o.tag;
+    canary = o.canary;
+    return *this;
+  }
+  Elem& operator=(Elem&& o) noexcept {
+    raceR(&o, "element");
+    raceW(this, "element");
+    tag = o.tag;
+    canary = o.canary;
+    return *this;
+  }
   ~Elem() {
     canary = 0xDEAD;
     g_live--;
+    raceW(this, "element");
   }
 };
 
@@ -597,6 +617,14 @@ static void vectorRun(const char* name) {
     sim_note("ops", opsEach);
     static const int kMaxIdx = 4096;
     std::vector<int>& owner = immortal<std::vector<int>>(kMaxIdx, -1); // index -> tag claimed
+    // how a reader learns that an index is valid must itself be properly synchronised (as in any
+    // real program): the grower publishes with a release store, the reader acquires
+    struct Pub {
+      std::atomic<int> f[kMaxIdx];
+    };
+    Pub& pub = immortal<Pub>();
+    for (int i = 0; i < kMaxIdx; ++i)
+      pub.f[i].store(0, std::memory_order_relaxed);
     int totalGrowth = 0;
     int nextTag = 0;
     bool done = false;
@@ -608,6 +636,7 @@ static void vectorRun(const char* name) {
         sim_fail(cls, "index %zu returned to two growth operations (tags %d and %d)", idx, owner[idx], tag);
       }
       owner[idx] = tag;
+      pub.f[idx].store(1, std::memory_order_release);
     };
     std::vector<std::thread> threads;
     for (int gidx = 0; gidx < nGrowers; ++gidx) {
@@ -663,9 +692,9 @@ static void vectorRun(const char* name) {
     threads.emplace_back([&]() {
       for (int r = 0; r < 30 && !done; ++r) {
         for (size_t i = 0; i < (size_t)kMaxIdx; ++i) {
-          if (owner[i] < 0)
+          if (!pub.f[i].load(std::memory_order_acquire))
             break;
-          // only elements whose growth call has returned are in `owner`
+          // only elements whose growth call has returned are published
           const Elem& e = vec[i];
           if (e.canary != 0xE1E3 || e.tag != owner[i]) {
             snprintf(cls, sizeof cls, "%s:published-element-damaged", name);
